@@ -80,7 +80,7 @@ Qed.
 
 Lemma last_cons_default {A} (l : list A) (a d : A) : last (a :: l) d = last l a.
 Proof.
-  revert a. induction l as [|b l IH]; intros a; [reflexivity|].
+  revert a d. induction l as [|b l IH]; intros a d; [reflexivity|].
   change (last (a :: b :: l) d) with (last (b :: l) d).
   rewrite IH. symmetry. apply IH.
 Qed.
@@ -96,12 +96,7 @@ Lemma In_tl {A} (l : list A) (x : A) : In x (tl l) -> In x l.
 Proof. destruct l; simpl; [tauto|]. intros H; right; exact H. Qed.
 
 Lemma removelast_snoc {A} (l : list A) (a : A) : removelast (l ++ [a]) = l.
-Proof.
-  induction l as [|b l IH]; [reflexivity|].
-  simpl. destruct (l ++ [a]) eqn:E.
-  - destruct l; discriminate.
-  - rewrite <- E. rewrite IH. reflexivity.
-Qed.
+Proof. apply removelast_last. Qed.
 
 Lemma Forall_skipn' {A} (P : A -> Prop) (k : nat) (l : list A) : Forall P l -> Forall P (skipn k l).
 Proof.
@@ -246,8 +241,7 @@ Qed.
 
 Lemma mem_nat_false (x : nat) (l : list nat) : mem_nat x l = false <-> ~ In x l.
 Proof.
-  rewrite <- mem_nat_In. destruct (mem_nat x l); split; intros; try congruence; try reflexivity.
-  exfalso; auto.
+  rewrite <- mem_nat_In. destruct (mem_nat x l); split; intros H; congruence.
 Qed.
 
 Lemma In_coll_add (x y : nat) (l : list nat) : In y (coll_add x l) <-> y = x \/ In y l.
@@ -458,17 +452,19 @@ Qed.
    up to there the filtered sequence and the old one agree *)
 Lemma places_of_firstn (us : list nat) (h : nat) (t : list nat) :
   mem_nat h us = false ->
-  let l := h :: t in
-  let k := S (first_gap (places_of us 0 l) - 1) in
-  firstn k (filter (fun x => negb (mem_nat x us)) l) = firstn k l.
+  firstn (S (first_gap (places_of us 0 (h :: t)) - 1))
+         (filter (fun x => negb (mem_nat x us)) (h :: t))
+  = firstn (S (first_gap (places_of us 0 (h :: t)) - 1)) (h :: t).
 Proof.
-  intros Hh l k. subst l k.
+  intros Hh.
+  assert (Hp : places_of us 0 (h :: t) = places_of us 1 t) by (simpl; rewrite Hh; reflexivity).
+  assert (Hf : filter (fun x => negb (mem_nat x us)) (h :: t)
+               = h :: filter (fun x => negb (mem_nat x us)) t) by (simpl; rewrite Hh; reflexivity).
+  rewrite Hp, Hf.
   pose proof (places_of_prefix us t 1) as HP.
-  simpl. rewrite Hh. simpl.
   destruct (places_of us 1 t) as [|[x g] rest].
-  - simpl. rewrite HP. reflexivity.
-  - destruct HP as (Hle & Heq). simpl.
-    replace (g - 1 - 0) with (g - 1) by lia. rewrite Heq. reflexivity.
+  - rewrite HP. reflexivity.
+  - destruct HP as (Hle & Heq). cbn [first_gap firstn]. rewrite Heq. reflexivity.
 Qed.
 
 (* re-inserting the removed stops at their recorded gaps restores the route *)
@@ -479,7 +475,7 @@ Lemma insert_places_places_of (us : list nat) :
     = map fst extra ++ l.
 Proof.
   induction l as [|a l IH]; intros pos extra Hex.
-  - simpl. rewrite app_nil_r. reflexivity.
+  - simpl. rewrite !app_nil_r. reflexivity.
   - simpl. destruct (mem_nat a us) eqn:E; simpl.
     + replace (extra ++ (a, pos) :: places_of us pos l)
         with ((extra ++ [(a, pos)]) ++ places_of us pos l) by (rewrite <- app_assoc; reflexivity).
